@@ -146,7 +146,22 @@ def replay(walk_list, stress=0, epilogue=False):
             continue
         seen.add(k)
         jobs.append({"id": len(jobs), "walk": w, "max_thr": 4, "stress": stress, "epilogue": epilogue})
-    res = vlib.run_pool(["heap"], jobs, workers=14, job_timeout=6)
+    res = vlib.run_pool(["heap"], jobs, workers=14, job_timeout=6, retry_hangs=False)
+    # a walk that did not answer in time is repeated with a generous limit before it counts as a hang - except where the
+    # step copies a value with a cycle through a cell, which never terminates (recorded finding of C13)
+    slow = []
+    for j in jobs:
+        r = res.get(j["id"], {})
+        if r.get("status") == "hang":
+            step = r["log"][-1][0] if r.get("log") else 0
+            step = max(0, min(step, len(j["walk"]) - 1))
+            if value_features(j["walk"], step) != "cell-cycle":
+                slow.append(j)
+    if slow:
+        again = vlib.run_pool(["heap"], slow, workers=4, job_timeout=60, retry_hangs=False)
+        for j in slow:
+            if again.get(j["id"], {}).get("status") not in (None, "hang"):
+                res[j["id"]] = again[j["id"]]
     return jobs, res
 
 
@@ -183,6 +198,7 @@ def run_common(pid, tier, mine, level_text_extra=""):
             classes |= cl
             if r["status"] in ("hang", "crash"):
                 step = r["log"][-1][0] if r.get("log") else 0
+                step = max(0, min(step, len(j["walk"]) - 1))
                 st = j["walk"][step]
                 feat = value_features(j["walk"], step)
                 if feat == "cell-cycle" and pid != "C13":
